@@ -14,7 +14,10 @@
     (`gather`); `old_id = index` only when the column is absent;
   * per-property assignment of the last atom (`kwargs.pop(prop, default)`), `old_id.max()+1`,
     dumbbell `pos[-2] -= db_vect; pos[-1] += db_vect`, `scale=True` converting `db_vect` as a vector;
-  * the dispatcher `point` with its assertions.
+  * the dispatcher `point` with its assertions;
+  * the tolerance argument as passed by the caller: `atol=None` (and only `None`) is replaced by the
+    default (`effAtol`); the entry points `vacancyC` … `pointC` take `Option K`;
+  * the per-type `masses` of the system (handed on to the result, padded like the symbols).
 -/
 import Atomman.Prelude
 import Atomman.Box
@@ -47,6 +50,8 @@ structure Sys (K : Type) where
   pbc : Bool × Bool × Bool
   /-- `len(system.symbols)` -/
   nsym : Nat
+  /-- `system.masses` (one optional value per atom type; `None` where not given) -/
+  masses : List (Option K) := []
   /-- names of the extra per-atom properties (not `atype`, `pos`, `old_id`) -/
   keys : List String
   atoms : List (Atom K)
@@ -143,8 +148,14 @@ def zerosLike (v : List K) : List K := v.map fun _ => 0
 
 def maxAtype (l : List (Atom K)) : Int := maxD (l.map (·.atype))
 
-/-- `System(..., symbols=system.symbols)`: the symbols tuple is padded with `None` up to `natypes`. -/
-def fixSym (s : Sys K) : Sys K := { s with nsym := max s.nsym (maxAtype s.atoms).toNat }
+/-- `lst + [None] * (n - len(lst))` -/
+def padNone {α : Type} (l : List (Option α)) (n : Nat) : List (Option α) := l ++ List.replicate (n - l.length) none
+
+/-- `System(..., symbols=system.symbols, masses=system.masses)`: the symbols tuple and the masses tuple
+    are padded with `None` up to `natypes`. -/
+def fixSym (s : Sys K) : Sys K :=
+  let n := max s.nsym (maxAtype s.atoms).toNat
+  { s with nsym := n, masses := padNone s.masses n }
 
 /-! ### the four generators, after the site has been resolved -/
 
@@ -242,6 +253,49 @@ def point (s : Sys K) (ptype : String) (pos : Option (V3 K)) (ptd : Option Int) 
     | some d => dumbbell s pos ptd d scale atol kw
     | none => .error .value         -- unmodelled input (numpy-internal failure); never exercised
   else .error .value                -- 'Invalid ptd_type'
+
+/-! ### the tolerance argument as the caller passes it (`atol: Optional[float] = None`) -/
+
+/-- `if atol is None: atol = uc.set_in_units(0.01, 'angstrom')`.  ONLY `None` is replaced by the
+    default `dflt`; an explicit tolerance — also `0`, a negative or a tiny one — is used as given. -/
+def effAtol (dflt : K) : Option K → K
+  | none => dflt
+  | some a => a
+
+def vacancyC (dflt : K) (s : Sys K) (pos : Option (V3 K)) (ptd : Option Int) (scale : Bool) (atol : Option K) :
+    Except Err (Sys K) := vacancy s pos ptd scale (effAtol dflt atol)
+
+def interstitialC (dflt : K) (s : Sys K) (pos : V3 K) (scale : Bool) (atol : Option K) (kw : Kw K) :
+    Except Err (Sys K) := interstitial s pos scale (effAtol dflt atol) kw
+
+def substitutionalC (dflt : K) (s : Sys K) (pos : Option (V3 K)) (ptd : Option Int) (scale : Bool)
+    (atol : Option K) (kw : Kw K) : Except Err (Sys K) := substitutional s pos ptd scale (effAtol dflt atol) kw
+
+def dumbbellC (dflt : K) (s : Sys K) (pos : Option (V3 K)) (ptd : Option Int) (db : V3 K) (scale : Bool)
+    (atol : Option K) (kw : Kw K) : Except Err (Sys K) := dumbbell s pos ptd db scale (effAtol dflt atol) kw
+
+/-- the dispatcher as coded: `atol` is handed on as given (`None` stays `None`) and every generator
+    applies the default itself. -/
+def pointC (dflt : K) (s : Sys K) (ptype : String) (pos : Option (V3 K)) (ptd : Option Int) (db : Option (V3 K))
+    (scale : Bool) (atol : Option K) (kw : Kw K) : Except Err (Sys K) :=
+  if ptype = "v" then
+    if db.isSome then .error .assert
+    else if !kw.isEmpty then .error .assert
+    else vacancyC dflt s pos ptd scale atol
+  else if ptype = "i" then
+    if ptd.isSome then .error .assert
+    else if db.isSome then .error .assert
+    else match pos with
+      | some p => interstitialC dflt s p scale atol kw
+      | none => .error .value
+  else if ptype = "s" then
+    if db.isSome then .error .assert
+    else substitutionalC dflt s pos ptd scale atol kw
+  else if ptype = "db" then
+    match db with
+    | some d => dumbbellC dflt s pos ptd d scale atol kw
+    | none => .error .value
+  else .error .value
 
 /-! ### histories: sequences of insertions with the provenance of every atom -/
 
